@@ -202,21 +202,22 @@ package electreIII
 
 // rank / distillate are not under contract (recursion through closures); their callers must hand them a distillation function
 // that is non-negative on [0,1] - the precondition of the termination argument
-// ascRank / descRank: the two distillations as (abstract) functions of the credibility matrix and the distillation function given
-//@ spec ascRank(m *AlternativesMatrix, f *utils.LinearFunctionParameters) *[]int
-//@ spec descRank(m *AlternativesMatrix, f *utils.LinearFunctionParameters) *[]int
+// isAscRank / isDescRank(r, m, f): r is the ascending / descending distillation of matrix m with distillation function f (relations:
+// the position lists are new objects on every call)
+//@ spec isAscRank(r *[]int, m *AlternativesMatrix, f *utils.LinearFunctionParameters) bool
+//@ spec isDescRank(r *[]int, m *AlternativesMatrix, f *utils.LinearFunctionParameters) bool
 // that a distillation is a function of the matrix and the distillation function is assumed ("assumes"); its shape is proved
 //@ func RankAscending
 //@   property C05 C06 C20 C01
 //@   requires [nonneg_distillation] distillationFun != nil && nonnegOnUnit(*distillationFun)
 //@   requires [square] matrix.Values != nil
-//@   assumes [a_function_of_matrix_and_distillation_function] result == ascRank(matrix, distillationFun)
+//@   assumes [the_ascending_distillation_of_that_matrix_with_that_function] isAscRank(result, matrix, distillationFun)
 //@   ensures [one_class_number_per_alternative] result != nil && len(*result) == matrix.Values.Size
 //@ func RankDescending
 //@   property C05 C06 C20 C01
 //@   requires [nonneg_distillation] distillationFun != nil && nonnegOnUnit(*distillationFun)
 //@   requires [square] matrix.Values != nil
-//@   assumes [a_function_of_matrix_and_distillation_function] result == descRank(matrix, distillationFun)
+//@   assumes [the_descending_distillation_of_that_matrix_with_that_function] isDescRank(result, matrix, distillationFun)
 //@   ensures [one_class_number_per_alternative] result != nil && len(*result) == matrix.Values.Size
 
 //@ func ElectreIII
@@ -224,7 +225,7 @@ package electreIII
 //@   requires [nonneg_distillation] distillationFun != nil && nonnegOnUnit(*distillationFun)
 //@   ensures [ranking] result != nil
 //@   ensures [one_entry_per_alternative_given_in_that_order] len(*result) == len(alternatives) && forall a int :: 0 <= a && a < len(alternatives) ==> (*result)[a].Alternative == alternatives[a]
-//@   returnhint [both_distillations_of_the_same_matrix_with_the_configured_function] ascending == ascRank(matrix, distillationFun) && descending == descRank(matrix, distillationFun)
+//@   returnhint [both_distillations_of_the_same_matrix_with_the_configured_function] isAscRank(ascending, matrix, distillationFun) && isDescRank(descending, matrix, distillationFun)
 
 //@ func (*ElectreIIIPreferenceFunc).Evaluate
 //@   property C20 C05 C06
@@ -306,17 +307,17 @@ package electreIII
 //@   ensures [smallest_entry] isMin(result, *m)
 
 // every (outer) distillation starts from the largest credibility of the matrix it works on; an inner one from the cut level
-// distilled(...): the positions a distillation yields (that it is a function of its arguments is assumed, "assumes"); it lets
+// isDistilled(r, ...): r are the positions of the distillation with these arguments (a relation, assumed of every call: "assumes"); it lets
 // the recursion state which comparison, distillation function, cut level and sub-matrix the next (inner or further) one gets
-//@ spec distilled(maxCred real, position int, m *Matrix, f *utils.LinearFunctionParameters, cmp func(int, int) bool, inner bool) *[]int
+//@ spec isDistilled(r *[]int, maxCred real, position int, m *Matrix, f *utils.LinearFunctionParameters, cmp func(int, int) bool, inner bool) bool
 //@ func distillate
 //@   property C05 C06 C01 C20
 //@   requires [starts_at_the_largest_credibility] !isInner ==> isMax(maxCred, *matrix)
 //@   ensures [positions] result != nil && fresh(result) && fresh(*result)
 //@   ensures [one_position_per_row] len(*result) == matrix.Size
-//@   assumes [a_function_of_its_arguments] result == distilled(maxCred, position, matrix, distillationFun, evaluateFunction, isInner)
+//@   assumes [the_distillation_with_these_arguments] isDistilled(result, maxCred, position, matrix, distillationFun, evaluateFunction, isInner)
 //@   returnhint [the_rest_is_distilled_from_its_own_largest_credibility_one_class_further] maxCred != 0.0 ==> (len(*indicesLeftToUpdate) == matrix.Size || isInner
-//@             || (exists mx real :: isMax(mx, *nextIterationMatrix) && furtherPositions == distilled(mx, position + 1, nextIterationMatrix, distillationFun, evaluateFunction, false)))
+//@             || (exists mx real :: isMax(mx, *nextIterationMatrix) && isDistilled(furtherPositions, mx, position + 1, nextIterationMatrix, distillationFun, evaluateFunction, false)))
 //@ func rank
 //@   property C05 C06 C01 C20
 //@   requires [square] matrix.Values != nil
@@ -354,7 +355,7 @@ package electreIII
 //@   assigns *positions, *bestIndices
 //@   ensures [in_place] *positions == old(*positions) && *bestIndices == old(*bestIndices)
 //@   returnhint [ties_are_split_by_an_inner_distillation_at_the_cut_level_with_the_same_comparison] (bestIndicesNum > 1 && minCred > 0.0) ==>
-//@             subPositions == distilled(minCred, position, nextToFilter, distillationFun, evaluateFunction, true)
+//@             isDistilled(subPositions, minCred, position, nextToFilter, distillationFun, evaluateFunction, true)
 
 // ---- distillation bookkeeping (C05, C06)
 //@ func greater
@@ -473,3 +474,15 @@ package electreIII
 //@ wire ElectreIIIEvaluation
 //@   property C01 C05 C06 C20
 //@   json AscendingIndex=ascendingIndex DescendingIndex=descendingIndex
+
+// ---- registered names (what a request must say to select this object; what error messages list)
+//@ func (*ElectreIIIBiasLIstener).Identifier
+//@   property C07 C20
+//@   nopanic
+//@   ensures [name] result == "electreIII"
+
+// ---- registered names (what a request must say to select this object; what error messages list)
+//@ func (*ElectreIIIPreferenceFunc).Identifier
+//@   property C05 C06 C20
+//@   nopanic
+//@   ensures [name] result == "electreIII"
